@@ -34,7 +34,7 @@ func main() {
 		Rule: "case = generated store configuration (sector/block size, old/current/new/spare, policy, index backend and size, flat/hierarchical, raw/CAS factory) x generated history of Put (good, size mismatch, hash mismatch, source error, arbitrary chunkings)/Get/FindMissing/GetFromComposite, sequential (group seq) or by 2-8 concurrent clients on <=4 keys with yields inside device I/O and upload sources (group conc); " +
 			"distinct = hash of (configuration, operation kinds and sizes); non-trivial = the history contains a read that returned bytes after at least one block rotation or a failed upload that was probed",
 		Workers:     12,
-		Floors:      map[string]int64{"reads_with_bytes": 2000, "failed_uploads_probed": 300, "rotations": 300, "composite_child_reads": 100, "conc_reads_with_bytes": 500, "shared_sector_pairs": 200, "uploads_ok": 2000, "adjacent_triples": 300},
+		Floors:      map[string]int64{"reads_with_bytes": 2000, "failed_uploads_probed": 300, "rotations": 300, "composite_child_reads": 100, "conc_reads_with_bytes": 500, "shared_sector_pairs": 200, "uploads_ok": 2000, "adjacent_triples": 300, "conc_composite_reads": 150},
 		Assumptions: []string{"the simulated block device is linearizable per call", "register recency (latest value wins) is not part of C01 and is not asserted"},
 		Race:        true,
 		Body:        body,
@@ -751,6 +751,30 @@ func concCase(ctx context.Context, w *run.Worker, c *run.Case) {
 					if n := u.Closes.Load(); n != 1 {
 						c.Violation("localstore.Put:upload-source-release-count", "concurrent Put closed the upload source %d times", n)
 					}
+				case x == 8 && !acStyle && len(k.content) >= 48: // halves long enough that a child can never coincide with another key of the universe
+					// Concurrent composite reads of the same parent: the
+					// slices are fixed per key, so every client designates
+					// the same children.
+					ev.op = "comp"
+					half := len(k.content) / 2
+					sl := &asm.Slicer{Slices: []asm.SliceSpec{
+						{Off: 0, Size: int64(half), Digest: gen.SHA256Digest(inst, k.content[:half])},
+						{Off: int64(half), Size: int64(len(k.content) - half), Digest: gen.SHA256Digest(inst, k.content[half:])},
+					}}
+					pick := sl.Slices[cr.Intn(2)]
+					ev.call = tick()
+					mu.Lock()
+					hist = append(hist, ev)
+					mu.Unlock()
+					got, err := s.BA.GetFromComposite(ctx, k.d, pick.Digest, sl).ToByteSlice(1 << 26)
+					mu.Lock()
+					ev.content, ev.err, ev.ok = string(got), err, err == nil
+					ev.ret = tick()
+					mu.Unlock()
+					if err == nil && string(got) != string(k.content[pick.Off:pick.Off+pick.Size]) {
+						c.Violation("localstore.GetFromComposite:wrong-slice-concurrent", "client %d: concurrent GetFromComposite of key %d child [%d:%d] returned %s", cl, ki, pick.Off, pick.Off+pick.Size, gen.Hex8(got))
+					}
+					w.Count("conc_composite_reads", 1)
 				case x < 9:
 					ev.op = "get"
 					ev.call = tick()
@@ -848,6 +872,23 @@ func concCase(ctx context.Context, w *run.Worker, c *run.Case) {
 					}
 				}
 				c.Violation("localstore.Get:wrong-bytes-concurrent", "client %d read key %d and got %s: %s%s", ev.client, ev.key, gen.Hex8([]byte(ev.content)), why, other)
+			}
+		case "comp":
+			if ev.err != nil {
+				if status.Code(ev.err) == codes.NotFound || (strings.Contains(ev.err.Error(), "Failed to refresh blob") && okAllocErr(ev.err)) {
+					continue
+				}
+				c.Violation("localstore.GetFromComposite:unexpected-error-concurrent", "concurrent GetFromComposite failed with %v", ev.err)
+				continue
+			}
+			just := false
+			for _, o := range hist {
+				if o.op == "put" && o.key == ev.key && o.err == nil && o.badMode == 0 && o.call < ev.ret {
+					just = true
+				}
+			}
+			if !just {
+				c.Violation("localstore.GetFromComposite:served-without-successful-upload", "client %d: a child of key %d was served although no successful upload of the parent started before the read returned", ev.client, ev.key)
 			}
 		case "fm":
 			if ev.err != nil {
